@@ -35,9 +35,10 @@ type c19Track struct {
 	media     string // argument given to AddEmptyTrack
 	timescale uint32
 	lang      string
-	sps       []byte // AVC: the supplied sequence parameter set (profile_idc seeded within the high family)
-	w, h      int    // AVC: the luma picture size the supplied SPS codes
-	chroma    int    // AVC: chroma_format_idc and bit depths (minus 8) the supplied SPS codes
+	sps       []byte       // AVC: the supplied sequence parameter set (profile_idc seeded within the high family)
+	w, h      int          // AVC: the luma picture size the supplied SPS codes
+	dec3      *mp4.Dec3Box // EC-3: configuration supplied as a struct (nil: the fixed box bytes)
+	chroma    int          // AVC: chroma_format_idc and bit depths (minus 8) the supplied SPS codes
 	bdl, bdc  int
 	desc      string // avc1 avc3 hvc1 hev1 aac ac3 ec3 wvtt stpp none
 	includePS bool
@@ -93,34 +94,92 @@ func freqIdx(f int) int {
 func c19ExpectedASC(obj byte, freq int) []byte {
 	var bitsV uint64
 	n := 0
-	put := func(v uint64, w int) { bitsV = bitsV<<uint(w) | v; n += w }
+	var out []byte
+	put := func(v uint64, w int) {
+		for i := w - 1; i >= 0; i-- {
+			bitsV = bitsV<<1 | (v>>uint(i))&1
+			n++
+			if n%8 == 0 {
+				out = append(out, byte(bitsV))
+				bitsV = 0
+			}
+		}
+	}
+	// samplingFrequencyIndex, or the escape value 15 followed by the frequency in 24 bits (14496-3 1.6.2.1)
+	putFreq := func(f int) {
+		if i := freqIdx(f); i >= 0 {
+			put(uint64(i), 4)
+		} else {
+			put(15, 4)
+			put(uint64(f), 24)
+		}
+	}
 	switch obj {
 	case 2:
 		put(2, 5)
-		put(uint64(freqIdx(freq)), 4)
+		putFreq(freq)
 		put(2, 4)
 		put(0, 3) // GASpecificConfig: frameLength, dependsOnCoreCoder, extensionFlag
 	case 5, 29:
 		put(uint64(obj), 5)
-		put(uint64(freqIdx(freq)), 4)
+		putFreq(freq)
 		if obj == 29 {
 			put(1, 4)
 		} else {
 			put(2, 4)
 		}
-		put(uint64(freqIdx(2*freq)), 4)
+		putFreq(2 * freq)
 		put(2, 5)
 		put(0, 3)
 	}
 	for n%8 != 0 {
 		put(0, 1)
 	}
-	out := make([]byte, n/8)
-	for i := len(out) - 1; i >= 0; i-- {
-		out[i] = byte(bitsV)
-		bitsV >>= 8
-	}
 	return out
+}
+
+// c19Dec3Bytes writes the EC3SpecificBox for a configuration from ETSI TS 102 366 F.6: data_rate(13) num_ind_sub(3),
+// per independent substream fscod(2) bsid(5) reserved(1) asvc(1) bsmod(3) acmod(3) lfeon(1) reserved(3)
+// num_dep_sub(4) and chan_loc(9) if there are dependent substreams, else reserved(1).
+func c19Dec3Bytes(d *mp4.Dec3Box) []byte {
+	var out []byte
+	var cur uint64
+	n := 0
+	put := func(v uint64, w int) {
+		for i := w - 1; i >= 0; i-- {
+			cur = cur<<1 | (v>>uint(i))&1
+			n++
+			if n%8 == 0 {
+				out = append(out, byte(cur))
+				cur = 0
+			}
+		}
+	}
+	put(uint64(d.DataRate), 13)
+	put(uint64(len(d.EC3Subs)-1), 3)
+	for _, s := range d.EC3Subs {
+		put(uint64(s.FSCod), 2)
+		put(uint64(s.BSID), 5)
+		put(0, 1)
+		put(uint64(s.ASVC), 1)
+		put(uint64(s.BSMod), 3)
+		put(uint64(s.ACMod), 3)
+		put(uint64(s.LFEOn), 1)
+		put(0, 3)
+		put(uint64(s.NumDepSub), 4)
+		if s.NumDepSub > 0 {
+			put(uint64(s.ChanLoc), 9)
+		} else {
+			put(0, 1)
+		}
+	}
+	for n%8 != 0 {
+		put(0, 1)
+	}
+	box := make([]byte, 8, 8+len(out))
+	binary.BigEndian.PutUint32(box, uint32(8+len(out)))
+	copy(box[4:], "dec3")
+	return append(box, out...)
 }
 
 func c19Build(r *sim.Run) (*mp4.InitSegment, []c19Track, error) {
@@ -146,11 +205,25 @@ func c19Build(r *sim.Run) (*mp4.InitSegment, []c19Track, error) {
 		case 5:
 			tr.media, tr.desc = "audio", "aac"
 			tr.aacObj = []byte{aac.AAClc, aac.HEAACv1, aac.HEAACv2}[t.Draw(3)]
-			tr.aacFreq = []int{48000, 44100, 24000, 32000}[t.Draw(4)]
+			tr.aacFreq = []int{48000, 44100, 24000, 32000, 48000, 44100, 64000, 88200, 96000, 7350, 8000, 11025, 16000, 22050, 22000, 37800}[t.Draw(16)]
 		case 6:
 			tr.media, tr.desc = "audio", "ac3"
 		case 7:
 			tr.media, tr.desc = "audio", "ec3"
+			if t.Chance(400) {
+				// an E-AC-3 configuration supplied as a struct: 1-3 independent substreams, some with dependent ones
+				d := &mp4.Dec3Box{DataRate: uint16(32 + t.Draw(6000))}
+				for k := 1 + t.Draw(3); k > 0; k-- {
+					sub := mp4.EC3Sub{FSCod: byte(t.Draw(3)), BSID: 16, BSMod: byte(t.Draw(8)), ACMod: byte(t.Draw(8)), LFEOn: byte(t.Draw(2))}
+					if t.Chance(300) {
+						sub.NumDepSub = 1
+						sub.ChanLoc = uint16(1 << uint(t.Draw(9)))
+					}
+					d.EC3Subs = append(d.EC3Subs, sub)
+				}
+				tr.dec3 = d
+				r.Probe("ec3-config-from-struct")
+			}
 		case 8:
 			tr.media, tr.desc = []string{"wvtt", "text"}[t.Draw(2)], "wvtt"
 			tr.str1 = []string{"", "WEBVTT", "WEBVTT\nRegion: id=a"}[t.Draw(3)]
@@ -208,6 +281,10 @@ func c19Build(r *sim.Run) (*mp4.InitSegment, []c19Track, error) {
 			}
 			err = trak.SetAC3Descriptor(b.(*mp4.Dac3Box))
 		case "ec3":
+			if tr.dec3 != nil {
+				err = trak.SetEC3Descriptor(tr.dec3)
+				break
+			}
 			b, e := mp4.DecodeBoxSR(0, bits.NewFixedSliceReader(c19Dec3))
 			if e != nil {
 				return nil, nil, e
@@ -418,8 +495,12 @@ func c19CheckBytes(r *sim.Run, data []byte, model []c19Track) {
 				r.Violate("c19-codec-config", "%s: supplied dac3 box not carried verbatim", who)
 			}
 		case "ec3":
-			if !bytes.Contains(seBytes, c19Dec3) {
-				r.Violate("c19-codec-config", "%s: supplied dec3 box not carried verbatim", who)
+			want := c19Dec3
+			if tr.dec3 != nil {
+				want = c19Dec3Bytes(tr.dec3)
+			}
+			if !bytes.Contains(seBytes, want) {
+				r.Violate("c19-codec-config", "%s: the sample entry does not carry the supplied E-AC-3 configuration (dec3 box %x expected)", who, want)
 			}
 		case "wvtt":
 			want := tr.str1
